@@ -1542,6 +1542,26 @@ fn run_keyed<K: KeyKind>(case: &Case, out: &mut impl Write) {
                                 let col: HashSet<(u64, TV)> = pairs().collect();
                                 (order_of(col.iter().map(|(k, v)| (*k, v.n)).collect()), RawLRU::from(col))
                             }
+                            // the slice / array impls clone the pairs (`to_vec()` / `iter().cloned()`): the originals are dropped here
+                            "slice" => {
+                                let col: Vec<(u64, TV)> = pairs().collect();
+                                (order_of(col.iter().map(|(k, v)| (*k, v.n)).collect()), RawLRU::from(&col[..]))
+                            }
+                            "mutslice" => {
+                                let mut col: Vec<(u64, TV)> = pairs().collect();
+                                (order_of(col.iter().map(|(k, v)| (*k, v.n)).collect()), RawLRU::from(&mut col[..]))
+                            }
+                            "array" if items.len() <= 3 => {
+                                let col: Vec<(u64, TV)> = pairs().collect();
+                                let order = order_of(col.iter().map(|(k, v)| (*k, v.n)).collect());
+                                let c = match col.len() {
+                                    0 => RawLRU::from(<[(u64, TV); 0]>::try_from(col).unwrap()),
+                                    1 => RawLRU::from(<[(u64, TV); 1]>::try_from(col).unwrap()),
+                                    2 => RawLRU::from(<[(u64, TV); 2]>::try_from(col).unwrap()),
+                                    _ => RawLRU::from(<[(u64, TV); 3]>::try_from(col).unwrap()),
+                                };
+                                (order, c)
+                            }
                             "btreeset" => {
                                 let col: BTreeSet<(u64, TV)> = pairs().collect();
                                 (order_of(col.iter().map(|(k, v)| (*k, v.n)).collect()), RawLRU::from(col))
